@@ -451,7 +451,7 @@ fn conformance_part(ctx: &mut Ctx, tier: Tier) {
             .par_iter()
             .map(|&(mu, sigma, smin)| {
                 let mut t = Tally::default();
-                for a1 in &m_small {
+                for a1 in &m_full {
                     let b1 = answer_bytes(mu, sigma, smin, *a1);
                     if !matches!(rs::sampler_step(mu, sigma, smin, &b1), rs::Step::Reject) {
                         continue;
@@ -470,7 +470,7 @@ fn conformance_part(ctx: &mut Ctx, tier: Tier) {
                 t
             })
             .reduce(Tally::default, reduce);
-        let mut part = Part::new("sampler_z_sequences_depth3", "two rejecting answers from the reduced menu (z0 in {0,1,2,9,18}) followed by every answer of the full menu, all cells");
+        let mut part = Part::new("sampler_z_sequences_depth3", "a rejecting answer from the full menu, a rejecting answer from the reduced menu (z0 in {0,1,2,9,18}), then every answer of the full menu, all cells");
         part.exhaustive = true;
         t.into_part(ctx, part);
     }
